@@ -160,7 +160,10 @@ fn main() {
         "c06" => d_num::run_c06(&mut ctx),
         "c07" => d_num::run_c07(&mut ctx),
         "c08" => d_num::run_c08(&mut ctx),
-        "c15" => d_num::run_c15(&mut ctx),
+        "c15" => {
+            let item = d_num::run_c15(&mut ctx);
+            d_ctor::run_c15_trees(&mut ctx, &scenarios, item);
+        }
         "c09" => d_shape::run_c09(&mut ctx),
         "c03" => d_shape::run_c03(&mut ctx),
         _ => {
